@@ -370,7 +370,10 @@ def main(argv=None):
     for r in cres:
         if r.get('module_doc'):
             module_docs[r['contract_module']] = r['module_doc']
-    extra = ['ASSUMED contract used at call sites (never verified here): ' + x for x in assumed_used] + \
+    th_only = sorted({x for r in cres for x in r.get('thorough_only_used', [])})
+    extra = ([f'contract relied on at call sites whose own proof runs only in the thorough tier (not discharged by this run): {x}'
+              for x in th_only] if a.tier == 'quick' else []) + \
+            ['ASSUMED contract used at call sites (never verified here): ' + x for x in assumed_used] + \
             [f'environment / ghost model of {m}: {d}' for m, d in sorted(module_docs.items())]
     ev = dict(property_id=prop, tier=a.tier if a.tier in ('quick', 'thorough') else 'quick', seed=seed, level=cfg['level'],
               coverage=coverage, assumptions=ASSUMPTIONS_COMMON + cfg.get('assumptions', []) + extra, wall_s=round(wall, 2),
